@@ -17,7 +17,8 @@ RULE = ('a case = one generated FileStorage history (stores, deletes, undos, res
         'Python\'s real buffering; evaluations = crash images (every operation boundary + torn byte-prefix cuts of '
         'every write at header-field boundaries, ends and generated offsets; every byte in thorough for writes '
         '<= 3 KiB) each reopened read-write and compared by the full query battery with the model prefix P_k, '
-        'k_done <= k <= k_started, then one more commit + reopen; non-trivial = image whose cut lies strictly '
+        'k_done <= k <= k_started, then one more commit + reopen; before that each image is opened READ-ONLY (nothing is '
+        'truncated away): its iterator and lastTransaction must show whole committed transactions of such a prefix only; non-trivial = image whose cut lies strictly '
         'inside a transaction being voted or finished; distinct by SHA-1 of the image')
 ASSUMPTIONS = ['crash model: prefix of the recorded raw operations with torn single writes; plus fsync-ordering '
                'oracle (no write to the data file after its last fsync when tpc_finish returns)',
@@ -128,6 +129,32 @@ def execute(case):
         p = os.path.join(sub, 'Data.fs')
         with open(p, 'wb') as f:
             f.write(img)
+        # the image as a read-only opener sees it (nothing is truncated away): only whole committed transactions
+        from vlib.model import CorruptGuard
+        allowed = [[t.tid for t in model.txns[:k]] for k in range(k_done, k_started + 1)]
+        try:
+            ro = FileStorage(p, read_only=True)
+        except Exception as e:
+            out.fail((PROPERTY, 'crash-read-only', 'open-failed', type(e).__name__),
+                     '%s: opening the crash image read-only raised %r' % (where, e))
+            return
+        try:
+            lt = ro.lastTransaction()
+            try:
+                ro_tids = [t.tid for t in ro.iterator()]
+            except CorruptGuard.errors():
+                ro_tids = None          # (documented: the iterator may refuse a torn tail)
+        finally:
+            ro.close()
+        if ro_tids is not None and ro_tids not in allowed:
+            out.fail((PROPERTY, 'crash-read-only', 'iterator', 'mismatch'),
+                     '%s (k_done=%d k_started=%d): read-only iterator lists %d transactions (last %r); committed: %s' % (
+                         where, k_done, k_started, len(ro_tids), ro_tids[-1:] and ro_tids[-1], [len(a) for a in allowed]))
+            return
+        if lt not in [(a[-1] if a else b'\0' * 8) for a in allowed]:
+            out.fail((PROPERTY, 'crash-read-only', 'lastTransaction', 'mismatch'),
+                     '%s: read-only lastTransaction() is %r' % (where, lt))
+            return
         try:
             fs = FileStorage(p)
         except Exception as e:
